@@ -47,6 +47,9 @@ def cases(ctx):
                           prune=True)
     pr += ndim_cases(rng, n // 3, 5, RECT2, ("sq", "eu"), pens=(0,), psi_prob=0.3, prune=True)
     pr += ndim_cases(rng, n // 5, 4, RECT3, ("sq", "eu"), pens=(0,), psi_prob=0.2, prune=True)
+    # an explicit max_dist together with use_pruning: the threshold clause holds there too
+    pr += dc.random_cases(rng, n // 3, 7, (0, 1, 2, 3, 5), inners=("sq", "eu"), pens=(0, 0, 1), mds=(3, 5, 9, 15),
+                          psi_prob=0.3, prune=True)
     out += [c for c in pr if ub_valid(c)]
     out += ndim_cases(rng, n // 3, 5, RECT2, ("sq", "eu"), pens=(0, 1), mds=(5, 7, 11), psi_prob=0.3)
     return dc.with_ids(out, "c03-")
